@@ -5,8 +5,9 @@ from props import qcommon as qc
 
 
 class Grammar(qc.QGrammar):
-    thread_kinds = [("async", 4), ("sync", 3), ("bsync", 3), ("basync", 2), ("aaw", 2), ("baaw", 1), ("await", 4), ("work", 1)]
-    body_kinds = [("work", 3), ("async", 3), ("basync", 1)]
+    thread_kinds = [("async", 4), ("sync", 3), ("bsync", 3), ("basync", 2), ("aaw", 2), ("baaw", 1), ("await", 4), ("work", 1),
+                    ("suspend", 1), ("resume", 2)]
+    body_kinds = [("work", 3), ("async", 3), ("basync", 1), ("suspend", 1), ("resume", 1)]
     max_depth = 2
 
     def build_graph(self, P, h):
@@ -25,7 +26,7 @@ class Grammar(qc.QGrammar):
 class Check(E3Check):
     prop = "C02"
     rule = ("Hypothesis draws a recipe (16 header bytes + per-thread op tuples + body pool); a deterministic compiler turns it into a sound client "
-            "program: 1-4 threads issuing async/sync/barrier_sync/barrier_async/async_and_wait (block and _f forms), awaits and nested asyncs on ONE serial "
+            "program: 1-4 threads issuing async/sync/barrier_sync/barrier_async/async_and_wait (block and _f forms), awaits, nested asyncs and balanced suspend/resume pairs (from threads and from items) on ONE serial "
             "queue (custom, or the main queue under dispatch_main), executed by the dvm executor under a harness-owned schedule (SCHED_FIFO on one CPU with "
             "seeded yields at the library's atomics; one worker runs multi-core). A case is non-trivial when >= 2 threads submitted, at least one synchronous "
             "submission was called while another item of the queue was pending or running (waiter path) and at least one while none was (fast path); "
